@@ -247,6 +247,27 @@ Theorem c03_is_end_stream_safe :
     (Forall (fun x => snd x = false) pre -> r = Server /\ exists st, o = BFrame (trailers_frame st)).
 Proof. exact is_end_stream_safe. Qed.
 
+(* the codec's source stream sits behind a Fuse: [run_body_src] is the same run over the explicit
+   source (its event list, "has answered None", the Fuse's "dropped" flag and a ghost counting the
+   polls made after it had answered None - polls a legal Stream may answer with a panic or with
+   invented items).  For every schedule, role, configuration and number of extra polls the run
+   equals the plain model's and the ghost is 0 *)
+Theorem c03_source_never_polled_after_end :
+  forall (msg enc : Type) (ser : msg -> option (list N)) (compress : enc -> list N -> list N)
+         (c : cfg enc) (r : role) (src : list (sevent msg)) (extra : nat),
+  fst (run_body_src msg enc ser compress c r src extra) = run_body_es msg enc ser compress c r src extra /\
+  s_after_end (snd (run_body_src msg enc ser compress c r src extra)) = 0.
+Proof. exact enc_source_never_polled_after_end. Qed.
+
+(* the ghost is not inert: without the Fuse's flag a poll of the ended source is counted and is
+   the explicit panic outcome *)
+Example c03_unfused_poll_is_counted :
+  enc_loop_s (list N) cenc ser_raw (compress_tbl []) (mkCfg None false None 8192 32768) [] [] true 0 false =
+    (PPanic, mkEnc [] None false, mkSource [] true 1 false) /\
+  enc_loop_s (list N) cenc ser_raw (compress_tbl []) (mkCfg None false None 8192 32768) [] [] true 0 true =
+    (PNone, mkEnc [] None false, mkSource [] true 0 true).
+Proof. split; reflexivity. Qed.
+
 (* the panic sites of the encoder (the division in compress - F-C01a -, the usize subtraction in
    finish_encoding) are explicit outcomes of the model and are never reached *)
 Theorem c03_encoder_never_panics :
@@ -300,6 +321,7 @@ Print Assumptions c03_server_call_link.
 Print Assumptions c03_server_call_conformant.
 Print Assumptions c03_client_call_conformant.
 Print Assumptions c03_is_end_stream_safe.
+Print Assumptions c03_source_never_polled_after_end.
 
 (* the constants written by hand in the model equal the ones regenerated from the Rust source
    (Gen/ConstTables.v, rewritten by rs2v on every run) *)
